@@ -20,7 +20,16 @@ RULE = ("histories: a fully signed transaction (generator of C05: all standard p
         "statement - signature version x hash type x field class x outcome, counters cell:* - is reached whatever the seed; the other "
         "histories are random and also sign different inputs, or the signatures of one multisig input, with different hash types. "
         "Distinct by (puzzle kind, signature version, hash type, mutated field class); both outcomes (stays valid / becomes invalid) "
-        "must be seen for every hash type, and every cell of REQUIRED_CELLS must be seen with the outcome the statement gives it.")
+        "must be seen for every hash type, and every cell of REQUIRED_CELLS must be seen with the outcome the statement gives it. "
+        "Round 4, drawn from a second random stream so that the older histories stay as they were, every such step undone: the null "
+        "outpoint (zero hash AND index 2^32-1) written into the first / a later input of a transaction of two or more inputs, or inserted "
+        "as a new first / later input with its spent output unknown or recorded; every field set to the special constants of its wire type "
+        "(0, 1, 2^31-1, 2^31, 2^32-2, 2^32-1, the lock-time threshold, relative-lock-time bits, all-zero / all-one hashes, 2^63, 2^64-1, "
+        "empty scripts); script lengths, output counts and input counts put on the compact-size boundaries 252/253/254/65535/65536, also "
+        "inside the material that gets signed; refused calls (a value that does not fit its wire field or has the wrong type in every "
+        "field of the transaction and of the recorded spent outputs, bytearray fields, unusable flags, an unknown spent output) made on "
+        "the live object, on a twin, on a twin under another coin's class, right before judged validations - of the unchanged state, of "
+        "the mutated state, and of the one transaction that would complete what the interrupted call had begun to serialise.")
 ASSUMPTIONS = [
     "the expected verdict for a mutated transaction is the reference interpreter's verdict on the same bytes (vmon/refs/script.py + refs/sighash.py); "
     "'committed' is defined as: the reference digest of the input's signatures changes",
@@ -29,8 +38,18 @@ ASSUMPTIONS = [
     "signed bytes re-loaded under another coin's class: on fork-id coins a legacy-path signature without the fork-id bit is refused "
     "(spend fails); witness-v0 checks on those coins use the BIP143 digest with the hash-type byte as given (BTG: fork id folded in) "
     "without a fork-id requirement, as the coins themselves have no segwit rule to compare with",
+    "a transaction whose ONLY input carries the null outpoint is a coinbase transaction: it spends nothing, pycoin validates none of its "
+    "inputs by design (bad_solution_count() == 0), and the statement's signed inputs are not there to be judged - such a state is skipped; "
+    "with two or more inputs the null outpoint is an outpoint like any other and the reference interpreter decides",
+    "a refused call (or one the library answers although a field holds an unusable value) is never judged itself; judged are the "
+    "validations that follow it, and that the object handed in looks afterwards as it did before (validation is a read: the caller's "
+    "lists and fields, and the dictionary handed to unspents_from_db, are the caller's)",
+    "no long-run (2^16 operations) shard: the anchors hold no per-object or per-process counter, cache or memo (a checker is built per "
+    "call, the sighash cache lives for one CHECKSIG); the only process-wide resource a validation touches is the EC generator (C01/C02/C10 "
+    "run it past 2^16), and one judged validation costs >= 1.2 ms of native EC work, i.e. > 100 s CPU for 2^16+100 of them",
 ]
-EXPLANATION = "per-input verdicts of the live object == reference verdicts == verdicts of a fresh object parsed from as_bin(include_unspents=True); inputs with missing spent output are never valid"
+EXPLANATION = ("per-input verdicts of the live object == reference verdicts == verdicts of a fresh object parsed from as_bin(include_unspents=True); "
+               "inputs with missing spent output are never valid; refused calls in between change no later verdict; validation leaves the object as it was")
 TIMEOUT = {"quick": 900, "thorough": 4 * 3600}
 
 HT_NAMES = {None: "all", 1: "all", 2: "none", 3: "single", 0x81: "all+acp", 0x82: "none+acp", 0x83: "single+acp"}
@@ -38,7 +57,14 @@ SIX = ("all", "none", "single", "all+acp", "none+acp", "single+acp")
 STRATA = (1, 2, 3, 0x81, 0x82, 0x83)
 MUTATION_CLASSES = ("version", "lock_time", "outpoint_hash", "outpoint_index", "sequence", "out_amount", "out_script", "out_script_append",
                     "spent_amount", "spent_script", "unlock_script", "add_output", "del_output", "swap_outputs", "add_input", "del_input",
-                    "swap_inputs", "swap_unlock", "drop_unspent", "truncate_unspents")
+                    "swap_inputs", "swap_unlock", "drop_unspent", "truncate_unspents",
+                    # round 4: special constants / two rare conditions at once, compact-size boundaries, error-path state
+                    "null_outpoint", "add_null_input", "special_value", "compact_size", "after_refusal")
+SPECIAL_FIELDS = ("version", "lock_time", "sequence", "outpoint_index", "outpoint_hash", "out_amount", "out_script", "spent_amount")
+COMPACT_KINDS = ("out_script_len", "out_count", "in_count")
+REFUSAL_KINDS = ("out_amount", "out_script", "sequence", "outpoint_index", "outpoint_hash", "spent_amount", "spent_script", "version",
+                 "lock_time", "unlock_script", "witness_item", "bytearray_fields", "flags", "unknown_unspent")
+ZERO32 = bytes(32)
 INPUT_FIELDS = ("outpoint_hash", "outpoint_index", "sequence", "spent_amount", "spent_script", "unlock_script")
 OUTPUT_FIELDS = ("out_amount", "out_script", "out_script_append")
 PUZZLE_KINDS = sorted(set(c05.KINDS))
@@ -116,6 +142,8 @@ class Tamper(c05.History):
         self.sign_mode = "uniform"
         self.hash_types = []
         self.forkcoin = self.fork[0] in ("bch", "btg")
+        self.rng2 = None            # second stream (set by history_for): everything added in round 4 draws from it, the older draws stay as they were
+        self.poisoned = None
 
     def case(self, extra=None):
         d = c05.History.case(self, {"sign_mode": self.sign_mode, "hash_types": list(self.hash_types), "stratum": self.stratum})
@@ -132,6 +160,22 @@ class Tamper(c05.History):
             raise RuntimeError("stratified composition not drawn")
         if self.stratum is not None:
             self.hash_type = self.stratum
+        self.signed_boundary()
+
+    def signed_boundary(self):
+        """exact boundary values inside the material that gets SIGNED (not only reached by tampering): an output script whose
+        length sits on a compact-size boundary, an output amount at the edge of its 8-byte field"""
+        rng = self.rng2
+        if rng is None or rng.random() >= 0.25:
+            return
+        to = rng.choice(self.tx.txs_out)
+        if rng.random() < 0.65:
+            n = rng.choice([253, 253, 253, 252, 254, 253, 65535, 65536])      # 253: the first length that needs the three-byte form
+            to.script = b"\x6a" + bytes([rng.randrange(256)]) * (n - 1)
+            self.rec.ev("signed_boundary:out_script_len")
+        else:
+            to.coin_value = rng.choice([2 ** 64 - 1, 2 ** 63, 2 ** 32, 2 ** 32 - 1])
+            self.rec.ev("signed_boundary:out_amount")
 
     def stratum_ok(self):
         n_in, n_out = len(self.puzzles), len(self.tx.txs_out)
@@ -162,8 +206,20 @@ class Tamper(c05.History):
         st, t2 = observe(Tx.from_bin, plain)
         if st != "ok":
             return
-        st, _ = observe(t2.unspents_from_db, dict(self.sources))
+        db0 = dict(self.sources)
+        keys0, vals0 = list(db0), [(id(v), v.as_bin()) for v in db0.values()]
+        st, _ = observe(t2.unspents_from_db, db0)
         rec.ev("Tx.unspents_from_db")
+        # the caller's dictionary (and the transactions in it) is the caller's: a lookup leaves it as it was, and asking again
+        # with the same object gives the same spent outputs
+        rec.ev("database_argument_unchanged_checked")
+        if list(db0) != keys0 or [(id(v), v.as_bin()) for v in db0.values()] != vals0:
+            rec.violation("database.lookup_modifies_callers_dictionary", self.case(), sorted(k.hex() for k in db0), sorted(k.hex() for k in keys0))
+        elif st == "ok":
+            first = [(u.coin_value, bytes(u.script)) for u in t2.unspents]
+            st2, _ = observe(t2.unspents_from_db, db0)
+            if st2 != "ok" or [(u.coin_value, bytes(u.script)) for u in t2.unspents] != first:
+                rec.violation("database.second_lookup_with_same_dictionary_differs", self.case(), st2, first)
         kw = {} if self.use_flags is None else {"flags": self.use_flags}
         if st != "ok" or not all(t2.is_solution_ok(i, **kw) for i in range(len(t2.txs_in))):
             rec.violation("database.honest_db_not_valid", self.case(), st, "all inputs valid")
@@ -404,6 +460,259 @@ class Tamper(c05.History):
         # swap_unlock mutates TxIn objects in place: its undo must restore them too
         return M
 
+    # ---------------------------------------------------------------------------------------------- round 4
+    @staticmethod
+    def _v(x):
+        return bytes(x) if isinstance(x, (bytes, bytearray)) else (x if isinstance(x, int) and not isinstance(x, bool) else repr(x))
+
+    def frame6(self, tx=None):
+        """everything the caller can see of the transaction object, field by field (tolerant of the unusable values the refused calls plant)"""
+        t, v = tx or self.tx, self._v
+        return {"version": v(t.version), "lock_time": v(t.lock_time),
+                "outpoints": [(v(i.previous_hash), v(i.previous_index)) for i in t.txs_in],
+                "sequences": [v(i.sequence) for i in t.txs_in],
+                "unlock": [(v(i.script), None if i.witness is None else [v(w) for w in i.witness]) for i in t.txs_in],
+                "outs": [(v(o.coin_value), v(o.script)) for o in t.txs_out],
+                "unspents": [None if u is None else (v(u.coin_value), v(u.script)) for u in t.unspents]}
+
+    @staticmethod
+    def frame_diff(a, b):
+        return sorted(k for k in a if a[k] != b[k])
+
+    def coinbase_shaped(self):
+        """exactly one input and it carries the null outpoint: a coinbase transaction. It spends nothing, pycoin validates no input of
+        it by design, and the statement's 'signed inputs' are not there to be judged"""
+        ins = self.tx.txs_in
+        return len(ins) == 1 and ins[0].previous_hash == ZERO32 and ins[0].previous_index == 0xffffffff
+
+    def twin(self, where):
+        """the same transaction and recorded spent outputs in brand-new objects, of this network's class or of another coin's"""
+        tx = self.tx
+        cls = self.net.tx
+        if where == "foreign":
+            from pycoin.networks.registry import network_for_netcode
+            cls = network_for_netcode(self.rng2.choice([c for c in ("BTC", "LTC", "BCH", "BTG", "GRS", "DOGE") if c != self.netcode])).tx
+        t = cls.from_bin(tx.as_bin())
+        t.unspents = [None if u is None else cls.TxOut(u.coin_value, u.script) for u in tx.unspents]
+        return t
+
+    def refused_call(self, kind=None, site=None):
+        """ERROR-PATH STATE: plant a value the library cannot process (it does not fit its wire field, or is of the wrong type) in
+        the live object, in a twin of it, or in a twin under another coin's class; call every validation entry point (a refusal -
+        or none - is never judged); take the value out again. Whatever the library left behind anywhere in the process must not
+        change the verdicts of the judged validation that follows. Returns a short description."""
+        rec, rng, tx = self.rec, self.rng2, self.tx
+        where = rng.choice(["same", "copy", "copy", "foreign"])
+        t = tx
+        if where != "same":
+            st, t = observe(self.twin, where)
+            if st != "ok":
+                where, t = "same", tx
+        kind = kind or rng.choice(REFUSAL_KINDS)
+        n_in, n_out = len(t.txs_in), len(t.txs_out)
+        if (kind in ("out_amount", "out_script") and not n_out) or not n_in:
+            kind = "version"
+        # (sites biased to the later positions: the refusal then comes part-way through, after something was already processed)
+        i = max(rng.randrange(n_in), rng.randrange(n_in)) if site is None or site >= n_in else site
+        j = (max(rng.randrange(n_out), rng.randrange(n_out)) if site is None or site >= n_out else site) if n_out else 0
+        if kind in ("spent_amount", "spent_script") and (i >= len(t.unspents) or t.unspents[i] is None):
+            kind = "sequence"
+        unusable_int = [2 ** 64, 2 ** 64 + rng.randrange(1, 9), -1, None, 1.5, "7"]
+        unusable_u32 = [2 ** 32, 2 ** 32 + rng.randrange(1, 9), -1, None, 0.5, "1"]
+        unusable_bytes = [None, "text", 7, [1, 2]]
+        plan, kw = [], {} if self.use_flags is None else {"flags": self.use_flags}
+        if kind == "out_amount":
+            plan = [(t.txs_out[j], "coin_value", rng.choice(unusable_int))]
+        elif kind == "out_script":
+            plan = [(t.txs_out[j], "script", rng.choice(unusable_bytes))]
+        elif kind == "sequence":
+            plan = [(t.txs_in[i], "sequence", rng.choice(unusable_u32))]
+        elif kind == "outpoint_index":
+            plan = [(t.txs_in[i], "previous_index", rng.choice(unusable_u32))]
+        elif kind == "outpoint_hash":
+            plan = [(t.txs_in[i], "previous_hash", rng.choice([None, "00" * 32, 5]))]
+        elif kind == "spent_amount":
+            plan = [(t.unspents[i], "coin_value", rng.choice(unusable_int))]
+        elif kind == "spent_script":
+            plan = [(t.unspents[i], "script", rng.choice(unusable_bytes))]
+        elif kind == "version":
+            plan = [(t, "version", rng.choice(unusable_u32))]
+        elif kind == "lock_time":
+            plan = [(t, "lock_time", rng.choice(unusable_u32))]
+        elif kind == "unlock_script":
+            plan = [(t.txs_in[i], "script", rng.choice(unusable_bytes))]
+        elif kind == "witness_item":
+            w = list(t.txs_in[i].witness)
+            plan = [(t.txs_in[i], "witness", rng.choice([None, [None] + w, w + ["text"], [7]]))]
+        elif kind == "bytearray_fields":
+            plan = ([(x, "script", bytearray(x.script)) for x in list(t.txs_in) + list(t.txs_out) + [u for u in t.unspents if u is not None]]
+                    + [(x, "previous_hash", bytearray(x.previous_hash)) for x in t.txs_in]
+                    + [(x, "witness", [bytearray(w) for w in x.witness]) for x in t.txs_in])
+        elif kind == "flags":
+            kw = {"flags": rng.choice(["x", 1.5, [1]])}
+        saved_unspents = list(t.unspents)
+        if kind == "unknown_unspent":
+            if rng.random() < 0.5 and i < len(t.unspents):
+                t.unspents[i] = None
+            elif t.unspents:
+                del t.unspents[-1]
+        old = [(o, a, getattr(o, a)) for o, a, _ in plan]
+        for o, a, val in plan:
+            setattr(o, a, val)
+        before = self.frame6(t)
+        order = list(range(n_in)) + [n_in + rng.randrange(3)]
+        rng.shuffle(order)
+        raised = 0
+        for k in order:
+            st, _ = observe(t.is_solution_ok, k, **kw)
+            raised += st != "ok"
+        if rng.random() < 0.5:
+            st, _ = observe(t.bad_solution_count, **kw)
+            raised += st != "ok"
+        rec.ev("refused_call")
+        rec.ev("refused_call:" + ("raised" if raised else "answered"))
+        rec.ev("refused_kind:" + kind)
+        rec.ev("refused_on:" + where)
+        after = self.frame6(t)
+        desc = "%s@%d/%d on %s" % (kind, i, j, where)
+        if after != before:
+            # a refused (or answered) validation is a read: the object handed in looks afterwards as it did before
+            rec.violation("refused_validation_edits_object." + ".".join(self.frame_diff(before, after)), self.case({"mutations": list(self.mlog), "refused": desc}),
+                          {k: after[k] for k in self.frame_diff(before, after)}, {k: before[k] for k in self.frame_diff(before, after)})
+        for o, a, val in old:
+            setattr(o, a, val)
+        t.unspents[:] = saved_unspents
+        return desc, kind, i, j
+
+    def verdicts_after_refused_call(self, state_ref, hts):
+        """between two steps (the object is in a state whose reference verdicts are known): a refused call somewhere in the process,
+        then the verdicts of the live object - the ones it had before, whatever was refused in between"""
+        rec = self.rec
+        desc = self.refused_call()[0]
+        live = self.live_verdicts()
+        rec.ev("Tx.is_solution_ok", len(live))
+        rec.ev("unchanged_state_judged_right_after_refused_call")
+        if len(live) != len(state_ref):
+            rec.ev("inconclusive:harness.state_reference_out_of_step")
+            rec.note("state reference out of step: %d verdicts, %d expected, coord %r after %r" % (len(live), len(state_ref), getattr(self, "coord", None), self.mlog))
+            return
+        for i, (lv, rv) in enumerate(zip(live, state_ref)):
+            u = self.tx.unspents[i] if i < len(self.tx.unspents) else None
+            if u is None and lv is not True:
+                continue        # spent output unknown: "never reported valid" is all the statement asks (a refusal is fine)
+            if lv is not rv:
+                direction = "accepts_tampered" if lv is True else ("rejects_untouched" if lv is False else "raises")
+                rec.violation("%s.right_after_refused_call" % direction, self.case({"mutations": list(self.mlog), "refused": desc, "hash_type_names": hts}),
+                              {"input": i, "pycoin": lv}, {"reference": rv})
+
+    def extra_mutations(self):
+        """round 4. (D) special constants and two rare conditions at once: the null outpoint (all-zero hash AND index 2^32-1) written
+        into an input or inserted as a new input, first position or not, its spent output unknown or recorded; every field set to
+        the extreme / special constants of its wire type; script lengths, output and input counts moved onto the compact-size
+        boundaries. (A) error-path state: a refused call, then the untouched transaction - or the one tampering that would
+        'complete' what the interrupted call had begun to serialise (the leading outputs / inputs removed)."""
+        tx, rng, rec = self.tx, self.rng2, self.rec
+        Tx = self.net.tx
+        n_in, n_out = len(tx.txs_in), len(tx.txs_out)
+        E = []
+
+        def fields(name, plan):
+            old = []
+
+            def apply():
+                # (the values to go back to are those of the moment: an accumulating history may have changed them since)
+                old[:] = [(o, a, getattr(o, a)) for o, a, _ in plan]
+                for o, a, val in plan:
+                    setattr(o, a, val)
+
+            def undo():
+                for o, a, val in old:
+                    setattr(o, a, val)
+            E.append((name, apply, undo))
+
+        def lists(name, fn):
+            saved = {}
+
+            def apply():
+                saved["ins"], saved["outs"], saved["uns"] = list(tx.txs_in), list(tx.txs_out), list(tx.unspents)
+                fn()
+
+            def undo():
+                tx.txs_in[:], tx.txs_out[:], tx.unspents[:] = saved["ins"], saved["outs"], saved["uns"]
+            E.append((name, apply, undo))
+
+        # -- the null outpoint --------------------------------------------------------------------
+        if n_in >= 2:
+            for k in sorted({0, rng.randrange(1, n_in)} if rng.random() < 0.3 else {0}):
+                fields("null_outpoint:%d" % k, [(tx.txs_in[k], "previous_hash", ZERO32), (tx.txs_in[k], "previous_index", 0xffffffff)])
+
+        def add_null_input():
+            k = 0 if rng.random() < 0.7 else rng.randrange(len(tx.txs_in) + 1)
+            known = rng.random() < 0.5
+            tx.txs_in.insert(k, Tx.TxIn(ZERO32, 0xffffffff, rng.choice([b"\x51", b"\x51\x51", b""]), rng.choice([0xffffffff, 0])))
+            while len(tx.unspents) < k:
+                tx.unspents.append(None)
+            tx.unspents.insert(k, Tx.TxOut(1000, b"\x51") if known else None)
+            rec.ev("add_null_input:%s:%s" % ("first" if k == 0 else "later", "spent_output_known" if known else "spent_output_unknown"))
+        lists("add_null_input", add_null_input)
+
+        # -- special constants --------------------------------------------------------------------
+        field = rng.choice(SPECIAL_FIELDS)
+        i, j = rng.randrange(n_in), rng.randrange(n_out)
+        u32 = [0, 1, 0x7fffffff, 0x80000000, 0xfffffffe, 0xffffffff]
+        if field == "version":
+            plan = [(tx, "version", rng.choice(u32))]
+        elif field == "lock_time":
+            plan = [(tx, "lock_time", rng.choice(u32 + [499999999, 500000000]))]
+        elif field == "sequence":
+            plan = [(tx.txs_in[i], "sequence", rng.choice(u32 + [1 << 22, 1 << 31 | 1 << 22]))]
+        elif field == "outpoint_index":
+            plan = [(tx.txs_in[i], "previous_index", rng.choice(u32))]
+        elif field == "outpoint_hash":
+            plan = [(tx.txs_in[i], "previous_hash", rng.choice([ZERO32, b"\xff" * 32, bytes(31) + b"\x01", b"\x01" + bytes(31)]))]
+        elif field == "out_amount":
+            plan = [(tx.txs_out[j], "coin_value", rng.choice([0, 1, 2 ** 32 - 1, 2 ** 32, 2 ** 63 - 1, 2 ** 63, 2 ** 64 - 1, 21 * 10 ** 14]))]
+        elif field == "out_script":
+            plan = [(tx.txs_out[j], "script", rng.choice([b"", b"\x00", b"\x6a", b"\xff"]))]
+        else:
+            i = rng.choice([k for k, u in enumerate(tx.unspents) if u is not None])
+            plan = [(tx.unspents[i], "coin_value", rng.choice([1, 2 ** 32 - 1, 2 ** 32, 2 ** 63, 2 ** 64 - 1]))]
+        if all(getattr(o, a) != val for o, a, val in plan):
+            fields("special_value:%d:%s" % (i if field in ("sequence", "outpoint_index", "outpoint_hash", "spent_amount") else j, field), plan)
+
+        # -- compact-size boundaries ---------------------------------------------------------------
+        r = rng.random()
+        if r < 0.2:
+            n = rng.choice([252, 253, 254, 252, 253, 254, 65535, 65536])
+            fields("compact_size:%d:out_script_len" % j, [(tx.txs_out[j], "script", b"\x6a" + bytes([rng.randrange(256)]) * (n - 1))])
+        elif r < 0.36:
+            n = rng.choice([252, 253, 254])
+            lists("compact_size:%d:out_count" % n, lambda: tx.txs_out.extend(Tx.TxOut(k, b"\x51") for k in range(n - len(tx.txs_out))))
+        elif r < 0.4:
+            n = rng.choice([252, 253, 254])
+
+            def in_count():
+                for k in range(n - len(tx.txs_in)):
+                    tx.txs_in.append(Tx.TxIn(bytes([1 + k % 255]) * 32, k, b"", 0xffffffff))
+                    tx.unspents.append(Tx.TxOut(1000, b"\x51"))
+            lists("compact_size:%d:in_count" % n, in_count)
+
+        # -- a refused call, then a judged validation ------------------------------------------------
+        # (the untouched transaction right after a refused call is judged between the steps: verdicts_after_refused_call)
+        def completion():
+            kind = rng.choice(["out_amount", "out_amount", "sequence", "outpoint_index"])
+            n = len(tx.txs_out) if kind == "out_amount" else len(tx.txs_in)
+            site = rng.randrange(1, n) if n > 1 else 0
+            self.poisoned, _, i, j = self.refused_call(kind, site)
+            if kind == "out_amount":
+                del tx.txs_out[:j]
+            else:
+                del tx.txs_in[:i]
+                del tx.unspents[:i]
+        if rng.random() < 0.8:
+            lists("after_refusal:1:completion", completion)
+        return E
+
     def snapshot_unlock(self):
         return [(ti, bytes(ti.script), tuple(ti.witness)) for ti in self.tx.txs_in]
 
@@ -469,20 +778,57 @@ class Tamper(c05.History):
             budget, accumulate = min(len(muts), 40), rng.random() < 0.45
         rec.ev("flags:" + ("standard" if self.use_flags is not None else "default"))
         rec.ev("history:" + ("accumulating" if accumulate else "undoing"))
-        for name, apply, undo in muts[:budget]:
+        steps = [(m, False) for m in muts[:budget]]
+        if self.rng2 is not None:
+            # round 4 steps: drawn from the second stream, spread over the history, always undone (also in an accumulating
+            # history, whose own course they leave as it was)
+            for m in self.extra_mutations():
+                steps.insert(self.rng2.randrange(len(steps) + 1), (m, True))
+        state_ref = list(base_ref)       # reference verdicts of the state the object is in between two steps
+        for (name, apply, undo), extra in steps:
             cls = name.split(":")[0]
             target = int(name.split(":")[1]) if ":" in name else None
             usnap = self.snapshot_unlock()
+            self.poisoned = None
+            if self.rng2 is not None and state_ref is not None and self.rng2.random() < 0.2:
+                self.verdicts_after_refused_call(state_ref, hts)
             try:
                 apply()
             except (IndexError, ValueError):
-                continue        # the shape changed under an accumulated history; this mutation no longer applies
-            self.mlog.append(name)
+                # the shape changed under an accumulated history; this mutation no longer applies (it may have been applied in part:
+                # the state's reference verdicts are unknown until the next accumulated step)
+                if extra:
+                    observe(undo)
+                else:
+                    state_ref = None
+                continue
+            if self.coinbase_shaped():
+                # (reached when an accumulating history has cut the transaction down to one input)
+                rec.ev("coinbase_shape:not_judged")
+                if extra or not accumulate:
+                    undo()
+                    self.restore_unlock(usnap)
+                else:
+                    state_ref = None
+                continue
+            if self.rng2 is not None and self.poisoned is None and self.rng2.random() < 0.1:
+                # error-path state: a refused call on this object / a twin / a twin under another coin's class right before
+                # the judged validation of this step
+                self.poisoned = self.refused_call()[0]
+            self.mlog.append(name if self.poisoned is None else "%s after refused call %s" % (name, self.poisoned))
             rec.ev("mutation:" + cls)
+            if self.poisoned is not None:
+                rec.ev("judged_right_after_refused_call")
+            if cls == "null_outpoint" and target == 0:
+                rec.ev("null_outpoint_first_of_many_judged")
+            if cls in ("special_value", "compact_size"):
+                rec.ev("%s:%s" % (cls, name.split(":")[2]))
+            frame0 = self.frame6()
             live = self.live_verdicts()
             ref, dig = self.ref_verdicts()
             rec.ev("Tx.is_solution_ok", len(live))
-            if len(live) > 1 and all(u is not None for u in tx.unspents) and len(tx.unspents) == len(tx.txs_in):
+            if not extra and len(live) > 1 and all(u is not None for u in tx.unspents) and len(tx.unspents) == len(tx.txs_in):
+                # (the round 4 steps leave the shared-instance entry point out: budget)
                 order = list(range(len(live)))
                 self.rng.shuffle(order)
                 shared = self.shared_checker_verdicts(self.ref_flags if self.use_flags is None else self.use_flags, order)
@@ -508,11 +854,13 @@ class Tamper(c05.History):
                         rec.ev("cell:%s:%s:%s:%s" % (self.sv.get(id(tx.txs_in[i]), "unsigned"), ht, lab, "valid" if rv else "invalid"))
                 if lv is not rv:
                     direction = "accepts_tampered" if lv is True else ("rejects_untouched" if lv is False else "raises")
-                    rec.violation("%s.%s.%s" % (direction, cls, ht), case, {"input": i, "pycoin": lv}, {"reference": rv})
+                    rec.violation("%s.%s.%s%s" % (direction, cls, ht, ".after_refused_call" if self.poisoned and cls != "after_refusal" else ""),
+                                  case, {"input": i, "pycoin": lv}, {"reference": rv})
             # digest-commitment consistency of the oracle itself (same shape only): unchanged digests + untouched own data => still valid
             if same_shape and not accumulate and cls not in ("swap_unlock", "swap_inputs", "add_input", "del_input"):
                 for i in range(len(live)):
-                    own = name in ("spent_script:%d" % i, "spent_amount:%d" % i, "unlock_script:%d" % i) or cls in ("drop_unspent", "truncate_unspents")
+                    own = (name in ("spent_script:%d" % i, "spent_amount:%d" % i, "unlock_script:%d" % i, "special_value:%d:spent_amount" % i)
+                           or cls in ("drop_unspent", "truncate_unspents"))
                     if base_dig[i] is not None and dig[i] is not None and not own:
                         if dig[i] == base_dig[i] and base_ref[i] and not ref[i]:
                             rec.ev("inconclusive:oracle.commitment_inconsistent.unchanged_digest_but_invalid")
@@ -533,10 +881,18 @@ class Tamper(c05.History):
             want = sum(1 for v in live if v is not True)
             if st == "ok" and bad != want:
                 rec.violation("bad_solution_count_inconsistent", case, bad, want)
-            if not accumulate:
+            # validation is a read: the caller's object (its lists, every field) is afterwards what the caller made it
+            frame1 = self.frame6()
+            rec.ev("object_unchanged_by_validation_checked")
+            if frame1 != frame0:
+                d = self.frame_diff(frame0, frame1)
+                rec.violation("validation_edits_object." + ".".join(d), case, {k: frame1[k] for k in d}, {k: frame0[k] for k in d})
+            if extra or not accumulate:
                 undo()
                 self.restore_unlock(usnap)
                 self.mlog.pop()
+            else:
+                state_ref = list(ref)
         # after undoing everything the live object must be valid again (repeating validation gives the fresh verdict)
         if not accumulate:
             again = self.live_verdicts()
@@ -554,6 +910,7 @@ def history_for(rec, seed, tier, shard, k, code):
         _KEYS.append(G.Keys(24))
     h = Tamper(rec, network_for_netcode(code), code, rng, _KEYS[0], std_flags=((k + shard) % 2 == 0), stratum=stratum_for(shard, k))
     h.coord = [seed, tier, shard, k]
+    h.rng2 = shard_rng(seed, PROPERTY, tier, shard, salt="round4:%d" % k)
     return h
 
 
@@ -570,6 +927,13 @@ def run_shard(spec, rec):
                 "sign_mode:uniform", "sign_mode:per_input", "sign_mode:per_signature",
                 "mixed_hash_types_in_one_input", "inputs_of_different_hash_types")
     rec.require(*["mutation:" + c for c in MUTATION_CLASSES])
+    rec.require("null_outpoint_first_of_many_judged", "add_null_input:first:spent_output_unknown", "add_null_input:first:spent_output_known",
+                "judged_right_after_refused_call", "unchanged_state_judged_right_after_refused_call", "refused_call:raised", "refused_on:same", "refused_on:copy", "refused_on:foreign",
+                "object_unchanged_by_validation_checked", "database_argument_unchanged_checked",
+                "signed_boundary:out_script_len", "signed_boundary:out_amount")
+    rec.require(*["special_value:" + f for f in SPECIAL_FIELDS])
+    rec.require(*["compact_size:" + f for f in COMPACT_KINDS])
+    rec.require(*["refused_kind:" + f for f in REFUSAL_KINDS])
     rec.require(*["kind:" + k for k in PUZZLE_KINDS])
     core, o1, o2 = c05.networks_for_slot(spec["slot"] + spec["seed"])
     nets = [core] * 6 + [o1]        # histories 0..2 (the stratified ones) are always on the shard's core network
